@@ -45,9 +45,7 @@ def classes():
     """class name -> (kind, method, strict type)"""
     out = {}
     for r in DOC["requests"]:
-        tn = r.get("typeName") or None
-        if tn is None:
-            continue
+        tn = valuegen.Meta.class_base_name(r)
         cn = suffixed(tn, "Request")
         props = [JR, {"name": "id", "type": ID}, {"name": "method", "type": {"kind": "stringLiteral", "value": r["method"]}}]
         if r.get("params") is not None:
@@ -55,9 +53,7 @@ def classes():
         out[cn] = ("request", r["method"], lit(props))
         out[cn.replace("Request", "") + "Response"] = ("response", r["method"], lit([JR, {"name": "id", "type": ID}, {"name": "result", "type": r["result"]}]))
     for n in DOC["notifications"]:
-        tn = n.get("typeName") or None
-        if tn is None:
-            continue
+        tn = valuegen.Meta.class_base_name(n)
         cn = suffixed(tn, "Notification")
         props = [JR, {"name": "method", "type": {"kind": "stringLiteral", "value": n["method"]}}]
         if n.get("params") is not None:
